@@ -1,0 +1,22 @@
+//go:build verif
+
+package verifexport
+
+import (
+	"context"
+	"time"
+
+	"go.minekube.com/gate/pkg/internal/reload"
+)
+
+// ReloadEventWatcher is reload's injectable filesystem event source.
+type ReloadEventWatcher = reload.VerifEventWatcher
+
+// ReloadDebounce is reload's debounce duration.
+const ReloadDebounce = reload.VerifDebounce
+
+// ReloadWatch runs reload's watch loop with an injected event watcher and reconcile interval.
+func ReloadWatch(ctx context.Context, path string, cb func() error, reconcileInterval time.Duration,
+	newWatcher func(dir string) (ReloadEventWatcher, error)) error {
+	return reload.VerifWatch(ctx, path, cb, reconcileInterval, newWatcher)
+}
